@@ -724,3 +724,35 @@ def parse_failing(out):
         return None
     groups = re.findall(r"\[([^\]]*)\]", vals[-1])
     return [[int(x) for x in re.findall(r"\d+", g.replace("%nat", ""))] for g in groups]
+
+
+# ------------------------------------------------------------------------------------------ constructor refusals
+def report_family_refused(ctx, name, ex):
+    """The library raised while the VALID cells of a directed family were being constructed."""
+    ctx.hist("family-refused:" + name)
+    ctx.violation("impl-violation",
+                  f"constructing the valid cells of input family `{name}` raised {type(ex).__name__}: {ex}",
+                  {"op": "build-family", "family": name, "error": f"{type(ex).__name__}: {ex}"}, found_input=True)
+
+
+def report_generator_refused(ctx, ex):
+    import traceback
+
+    ctx.hist("gen:constructor-raised")
+    if ctx.histogram.get("gen:constructor-raised", 0) <= 1:
+        ctx.violation("correspondence", f"a cell / metadata constructor raised on generated valid input: {type(ex).__name__}: {ex}",
+                      {"traceback": traceback.format_exc()[-1500:]}, found_input=False)
+
+
+def replay_family(data):
+    from harness import summ_hard
+
+    for name, cells in summ_hard.triangles():
+        if name == data["family"]:
+            if isinstance(cells, Exception):
+                print(f"family {name}: constructing its cells raises {type(cells).__name__}: {cells}")
+                return 1
+            print(f"family {name}: {len(cells)} cells constructed")
+            return 0
+    print("unknown family", data["family"])
+    return 1
